@@ -169,6 +169,7 @@ class ConcurrentExecutor(ABC, Generic[CallableType, ResultType]):
 
         # Event-driven state tracking for when the executor is done
         self._completion_event = threading.Event()
+        self._on_task_complete_lock = threading.Lock()
         self._suspend_exception: SuspendExecution | None = None
         # Set when a branch (or the timer thread) hits a non-Exception BaseException such as
         # BackgroundThreadError: the executor must stop waiting and re-raise it to the caller.
@@ -331,7 +332,22 @@ class ConcurrentExecutor(ABC, Generic[CallableType, ResultType]):
         future: Future,
         scheduler: TimerScheduler,
     ) -> None:
-        """Handle task completion, suspension, or failure."""
+        """Handle task completion, suspension, or failure.
+
+        Runs as done-callback on whichever thread finished the branch. Branch status, counters
+        and the complete/suspend decision are shared by all branches, so one callback at a time:
+        otherwise a callback could see another branch already FAILED/COMPLETED but not yet
+        counted, and suspend the execution although the completion policy had just been decided.
+        """
+        with self._on_task_complete_lock:
+            self._on_task_complete_locked(exe_state, future, scheduler)
+
+    def _on_task_complete_locked(
+        self,
+        exe_state: ExecutableWithState,
+        future: Future,
+        scheduler: TimerScheduler,
+    ) -> None:
 
         if future.cancelled():
             exe_state.suspend()
